@@ -291,6 +291,9 @@ pub fn generate(rng: &mut Rng, tier: Tier, emit: &mut dyn FnMut(String)) {
             add_op(by("Option<i32>"), 1, &int),
         ));
     }
+    // ---- the pager's typed stream over pages whose metadata differ ----
+    gen_pager(rng, thorough, emit);
+
     // the 16-bit boundary on every bind path
     let ns: Vec<usize> = if thorough { vec![0, 1, 255, 256, 32767, 32768, 65534, 65535, 65536, 65537, 70000, 131071, 131072] } else { vec![1, 65534, 65535, 65536, 65537, 70000] };
     for kind in ["slice_i32", "slice_opt", "vec_str", "map", "writer", "add"] {
@@ -312,5 +315,95 @@ pub fn generate(rng: &mut Rng, tier: Tier, emit: &mut dyn FnMut(String)) {
     }
     for kind in ["top", "nested", "tuple"] {
         emit(format!("big {}", kind));
+    }
+}
+
+/// Page scripts for the pager: the metadata sent with page k differs from page k-1 in one of the ways
+/// {type changed, column added, removed, renamed, reordered}, with / without metadata ids, with NO_METADATA and
+/// zero-sized pages in between; every target row type.
+fn gen_pager(rng: &mut Rng, thorough: bool, emit: &mut dyn FnMut(String)) {
+    use pager::{cols_str, PCol, PTYPES};
+    let col = |n: &str, t: &str| PCol { name: n.to_owned(), ty: PTYPES.iter().find(|(x, _)| *x == t).unwrap().0 };
+    let natural = |target: &str| -> Vec<PCol> {
+        match target {
+            "t_i32_str" => vec![col("pk", "int"), col("v", "text")],
+            "t_i32" => vec![col("pk", "int")],
+            _ => vec![col("pk", "int"), col("v", "bigint")],
+        }
+    };
+    let variants = |base: &[PCol]| -> Vec<Vec<PCol>> {
+        let mut out = Vec::new();
+        for i in 0..base.len() {
+            for (t, _) in PTYPES.iter() {
+                if *t != base[i].ty {
+                    let mut c = base.to_vec();
+                    c[i].ty = t;
+                    out.push(c); // type changed
+                }
+            }
+            let mut c = base.to_vec();
+            c[i].name = format!("{}x", c[i].name);
+            out.push(c); // renamed (same types: still fits a tuple, not the struct)
+            let mut c = base.to_vec();
+            c.remove(i);
+            out.push(c); // removed
+        }
+        let mut c = base.to_vec();
+        c.push(col("extra", "int"));
+        out.push(c); // added
+        let mut c = base.to_vec();
+        c.reverse();
+        out.push(c); // reordered (fits the struct, not the tuple unless symmetric)
+        out
+    };
+    let page = |rows: usize, new_id: bool, cols: &[PCol]| format!("{} {} {}", rows, new_id as u8, cols_str(cols));
+    for target in ["t_i32_i64", "t_i32_str", "t_i32", "s_pk_v", "row"] {
+        let nat = natural(target);
+        let vars = variants(&nat);
+        for (ext, skip) in [(false, false), (false, true), (true, false)] {
+            let head = format!("pager {} {} {} | {}", target, ext as u8, skip as u8, cols_str(&nat));
+            let nometa_ok = ext || skip;
+            // all pages alike
+            emit(format!("{} | {} | {}", head, page(2, false, &nat), page(3, false, &nat)));
+            for v in &vars {
+                // the change arrives with page 1 / page 2 / after a zero-sized page / on the first page
+                emit(format!("{} | {} | {}", head, page(2, false, &nat), page(2, ext, v)));
+                emit(format!("{} | {} | {} | {}", head, page(1, false, &nat), page(2, false, &nat), page(1, false, v)));
+                emit(format!("{} | {} | {} | {}", head, page(2, false, &nat), page(0, false, v), page(2, false, v)));
+                emit(format!("{} | {} | {} | {}", head, page(0, false, &nat), page(0, false, v), page(1, false, v)));
+                emit(format!("{} | {} | {}", head, page(1, false, v), page(1, false, &nat)));
+                // changes and changes back
+                emit(format!("{} | {} | {} | {}", head, page(1, false, &nat), page(0, false, v), page(2, false, &nat)));
+                if nometa_ok {
+                    emit(format!("{} | 2 nometa | {} | 1 nometa", head, page(1, ext, v)));
+                    emit(format!("{} | 1 nometa | 0 nometa | {}", head, page(2, false, v)));
+                }
+                if ext {
+                    // the id changes but the columns do not; the columns change but no id is announced
+                    emit(format!("{} | {} | {} | {}", head, page(1, false, &nat), page(1, true, &nat), page(1, false, v)));
+                    emit(format!("{} | {} | {} | 1 nometa", head, page(1, false, &nat), page(1, true, v)));
+                }
+            }
+            if nometa_ok {
+                emit(format!("{} | 2 nometa | 0 nometa | 3 nometa", head));
+            }
+            // random scripts
+            for _ in 0..(if thorough { 60 } else { 6 }) {
+                let n = 1 + rng.below(5) as usize;
+                let pages: Vec<String> = (0..n)
+                    .map(|_| {
+                        let rows = *rng.pick(&[0usize, 0, 1, 2, 3]);
+                        if nometa_ok && rng.chance(1, 4) {
+                            format!("{} nometa", rows)
+                        } else if rng.chance(2, 3) {
+                            page(rows, ext && rng.chance(1, 3), &nat)
+                        } else {
+                            { let v: &Vec<PCol> = rng.pick(&vars[..]); page(rows, ext && rng.chance(1, 3), v) }
+                        }
+                    })
+                    .collect();
+                emit(format!("{} | {}", head, pages.join(" | ")));
+            }
+        }
     }
 }
